@@ -379,7 +379,7 @@ def job(j):
 
 def run(ctx):
     tier = ctx.tier
-    cfgs = [Config(levels=1, ndisks=2)] + ([Config(levels=2, ndisks=2, hashkind="spooky2")] if tier == "thorough" else [])
+    cfgs = [Config(levels=1, ndisks=2)] + ([Config(levels=2, ndisks=2, hashkind="spooky2", uuid=True)] if tier == "thorough" else [])
     ctx.set("rule", "trees {duplicate groups of 4/3/2 within and across disks + near-duplicates + empty files + links; %d odd "
                     "names} x recorded states %r x {no share, share prefix}; list, dup, status -G, pool each compared with "
                     "the independent decode / byte-level ground truth. non-trivial = every (tree, state, share) case"
